@@ -466,6 +466,12 @@ VARIANTS = [
       note="ties broken ascending instead of descending by id: still deepest-first and total"),
     V("silent-rename-private-helper", silent=["C01", "C03", "C05", "C07", "C16"], edits=[
         (S, "_process_single_transition", "_run_external_transition")]),
+    V("silent-rename-name-anchored-helper", silent=["C01", "C03", "C05", "C11"], edits=[
+        (B, "_is_descendant", "_is_proper_descendant"), (M, "_is_descendant", "_is_proper_descendant")],
+      note="a consistent rename of a reference helper the rules know by name (both namesakes): undone in the model (sa/inline.py)"),
+    V("silent-rename-compute-exit-set", silent=["C01", "C03", "C05", "C16"], edits=[
+        (B, "_compute_states_to_exit", "_exit_set_for")],
+      note="consistent rename of an anchor function"),
     V("silent-reorder-independent", silent=["C12", "C01", "C14"], edits=[
         (B, "        interpreter.context = snapshot['context']\n        interpreter.status = snapshot['status']\n", "        interpreter.status = snapshot['status']\n        interpreter.context = snapshot['context']\n")]),
     V("silent-early-return-to-else", silent=["C02", "C05", "C10", "C14"], edits=[
